@@ -16,6 +16,7 @@ import TsrunVerif.Driver.Life
 import TsrunVerif.Driver.Pratt
 import TsrunVerif.Driver.Lib
 import TsrunVerif.Driver.Obj
+import TsrunVerif.Driver.Comb
 
 /-! `tvdriver <model>`: line protocol, one observation line per case line. -/
 
@@ -46,6 +47,7 @@ def main (args : List String) : IO UInt32 := do
   | ["orders"] => loop stdin stdout TsrunVerif.Driver.ordersLine; return 0
   | ["roots"] => loop stdin stdout TsrunVerif.Driver.rootsLine; return 0
   | ["life"] => loop stdin stdout TsrunVerif.Driver.lifeLine; return 0
+  | ["comb"] => loop stdin stdout TsrunVerif.Driver.combLine; return 0
   | ["obj"] => loop stdin stdout TsrunVerif.Driver.objLine; return 0
   | ["lib"] => loop stdin stdout TsrunVerif.Driver.libLine; return 0
   | ["pratt"] => loop stdin stdout TsrunVerif.Driver.prattLine; return 0
